@@ -391,6 +391,9 @@ PROPS = {"C11": dict(
     lean_modules=["Vore.Props.C11"],
     theorems=THEOREMS,
     extract=True,
+    fallback="every cell of the operator/coercion table (operator x left type x right type, unary ones included) executed on the "
+             "real evaluator with boundary values of each type; generated expressions parsed and evaluated by the real code "
+             "against an independent precedence/associativity oracle",
     run=run,
     replay=replay,
     trusted_base=[
